@@ -395,9 +395,8 @@ func checkC11(c any, r *Rec) error {
 		if cerr == nil && xerr == nil {
 			return fmt.Errorf("name %s is served by no loader (and not guarded by if_exists) but the template rendered %q\n %s", m.name, got, desc())
 		}
-		if !m.lazy && cerr == nil {
-			return fmt.Errorf("statically referenced name %s is missing: compilation must fail, but only execution failed (%v)\n %s", m.name, xerr, desc())
-		}
+		// (whether a statically written name is missed when compiling or only when executing is not
+		// stated: "a missing name is an error")
 		r.Class("missing-name-error")
 	} else {
 		if cerr != nil || xerr != nil {
